@@ -96,12 +96,19 @@ pub fn exec(rec: &Value, _st: &mut State) -> Value {
                     let r = *c4 as f64 / 4.0 * s;
                     angles.iter().map(|a| mesh.project_with_tol(&handed, r, (*a as f64).to_radians(), tf.as_ref()).is_some()).collect()
                 }).collect();
+                let dev = {
+                    use engeom::metrology::Measurement;
+                    let dv = mesh.measure_point_deviation(&p, engeom::common::DistMode::ToPoint);
+                    let v = 2.0 * dv.value() / s;
+                    json!({"dq2": q.q(v * v, 64.0), "a": d2q(&mut q, &dv.a)})
+                };
                 let mut qn = Q::new();
                 outs.push(json!({
                     "sp": {"p": [q.q(2.0 * sp.point.x / s, QPC), q.q(2.0 * sp.point.y / s, QPC), q.q(2.0 * sp.point.z / s, QPC)],
                            "n": [qn.q(sp.normal.x, QD), qn.q(sp.normal.y, QD), qn.q(sp.normal.z, QD)], "nfin": qn.finite,
                            "dq2": d2q(&mut q, &sp.point)},
                     "pc": {"dq2": d2q(&mut q, &pc)},
+                    "dev": dev,
                     "pr": pr, "capped": capped, "tol": tol}));
             }
             // indices_in_tol for the first cap / every angle
